@@ -158,6 +158,10 @@ func (c *c08Case) runPresence(ctx *core.Ctx) {
 		fm = "---\n" + yml(0) + "---\n"
 	}
 	files["page.vuego"] = fm + body
+	if c.Ctor == "crlf" {
+		// the page was saved with Windows line endings: its front-matter is front-matter all the same
+		files["page.vuego"] = strings.ReplaceAll(fm+body, "\n", "\r\n")
+	}
 	fv, _, _ := c08Val(c.Type, 1)
 	av, _, _ := c08Val(c.Type, 2)
 	var fill any
@@ -736,7 +740,7 @@ func init() {
 										for _, en := range []string{"render", "renderfile", "renderstring"} {
 											emit(&c08Case{Part: "presence", Mask: mask, Order: order, LoadAt: la, Fill: fill, Var: v, Type: typ, Read: rd, Entry: en})
 											if fill == "map" && typ == "string" {
-												for _, ctor := range []string{"withfs", "replace", "funcsfirst"} {
+												for _, ctor := range []string{"withfs", "replace", "funcsfirst", "crlf"} {
 													emit(&c08Case{Part: "presence", Mask: mask, Order: order, LoadAt: la, Fill: fill, Var: v, Type: typ, Read: rd, Entry: en, Ctor: ctor})
 												}
 											}
